@@ -58,7 +58,7 @@ META["C13"] = {
 
 META["C09"] = {
     "text": "Property-based exploration of decode/encode histories with an exact byte prediction computed independently from the input (reference parser), signature re-verification after every history, and a fixpoint oracle for the canonical form obtained after discarding raw bytes. Exploration is the right level: the statement quantifies over all accepted encodings and any number of cycles.",
-    "note": TRUST,
+    "note": TRUST + " Known findings F11 (bignum header value beyond int64) and F15 (tag 0/1 map key colliding with an untagged key): after the caller discards raw bytes the re-encoding is undecodable; listed in known-findings.txt.",
     "technique": "property-based testing (rapid) over operation histories + rapid.MakeFuzz; oracle: byte-exact prediction from the reference parser, round-trip fixpoint, reference-signed signatures still verifying",
 }
 
@@ -94,7 +94,7 @@ META["C14"] = {
 
 META["C15"] = {
     "text": "Exhaustive enumeration of the key-consistency grid (850 500 keys) plus structure-aware mutation and coverage-guided fuzzing of the key decoder, with the statement's clauses as an independent judge over the bytes and functional checks of the signer/verifier gates (signature verifies under the key d*G computed by the harness).",
-    "note": TRUST + " Known finding F11 (bignum parameter beyond int64 makes the re-encoding undecodable) is listed in known-findings.txt.",
+    "note": TRUST + " Known findings F11 (bignum parameter beyond int64) and F15 (tag 0/1 map key colliding with an untagged key), both making the re-encoding of an accepted key undecodable, are listed in known-findings.txt.",
     "technique": "exhaustive grid enumeration + property-based testing (rapid) with tree mutators + native go fuzzing; oracle: reference COSE_Key rules, encode/decode fixpoint, gate model",
 }
 
